@@ -13,11 +13,10 @@
      - a compound built from at least two processed markers, pairwise distinct and none of
        them absorbing, whose children are pairwise distinct as well.
    NOT proved (decided by the normal-form checker of the direct oracle and by the
-   structural S-mark correspondence): that no child is neutral or a compound of the same
-   kind for arbitrary inputs, and the statements for the paths that do not end in of():
-   union() returning its raw candidate, and union_simplify / intersect_simplify building a
-   compound directly - where the property is in fact violated on the unchanged tree (known
-   finding "one-child compound"). *)
+   structural S-mark correspondence): that no child is the universal / empty marker, and that
+   compounds have at least two children on the paths that do not end in of(): union() returning
+   its raw candidate, and union_simplify / intersect_simplify building a compound directly - where
+   the property is in fact violated on the unchanged tree (known finding "one-child compound"). *)
 From Coq Require Import List Bool NArith Arith String Lia Permutation.
 From Verif Require Import PyRes Str Marker MarkerBase MarkerInv.
 Import ListNotations.
